@@ -79,7 +79,8 @@ class Engine:
 
     # ------------------------------------------------------------------ global axioms
     def base_axioms(self):
-        ax = smt.class_axioms() + pow_axioms() + strip_axioms() + heap_wf_axioms(self.h0)
+        from .tr import tuple_eq_axioms
+        ax = smt.class_axioms() + pow_axioms() + strip_axioms() + heap_wf_axioms(self.h0) + tuple_eq_axioms()
         ax += self.axioms
         return ax
 
@@ -1832,6 +1833,11 @@ class Engine:
         a = self.coerce(self.ev(e.args[0], ec), "s", ec)
         return T("s", z3.Function("os_abspath", StrS, StrS)(a))
 
+    def sp_concat(self, e, ec):
+        """concat(a, b, ...): string concatenation of values known to be strings"""
+        parts = [self.coerce(self.ev(a, ec), "s", ec) for a in e.args]
+        return T("s", z3.Concat(*parts) if len(parts) > 1 else parts[0])
+
     def sp_startswith(self, e, ec):
         a = self.coerce(self.ev(e.args[0], ec), "s", ec)
         b = self.coerce(self.ev(e.args[1], ec), "s", ec)
@@ -2358,6 +2364,54 @@ class Engine:
         ec.st.assume(z3.ForAll([i], z3.Implies(z3.And(i >= na, i < na + nb), arr[i] == old_b[i - na]), patterns=[arr[i]]))
         self.list_set_all(ec, r, na + nb, arr)
         return tV(V.none)
+
+    def me_remove(self, recv, e, ec):
+        """xs.remove(x): deletes the FIRST item equal to x (Python ==), ValueError when there is none"""
+        v = toV(recv)
+        if not self.must_g(ec, smt.is_kind(v, "list")):
+            return None
+        if ec.guard:
+            raise OutOfSubset("conditional mutation inside an expression")
+        x = self.mat(self.ev(e.args[0], ec), ec)
+        h = ec.st.heap
+        r = V.rv(v)
+        n = h.llen(r)
+        old_arr = h.sel("lel", r)
+        j = z3.Int("j!")
+        from .tr import forall as _forall
+        eq_at = lambda idx: py_eq(tV(old_arr[idx]), x, h)
+        found = fresh("rm_found", BoolS)
+        i = fresh("rm_at", IntS)
+        ec.st.assume(found == z3.Exists([j], z3.And(j >= 0, j < n, eq_at(j))))
+        ec.may_raise(z3.Not(found), "ValueError", e.lineno, "list.remove(x): x not in list")
+        ec.assume(z3.Implies(found, z3.And(i >= 0, i < n, eq_at(i), _forall([j], z3.Implies(z3.And(j >= 0, j < i), z3.Not(eq_at(j))), [old_arr[j]]))))
+        new_arr = fresh("rm", smt.ArrIV)
+        ec.st.assume(_forall([j], z3.Implies(z3.And(j >= 0, j < i), new_arr[j] == old_arr[j]), [new_arr[j]]))
+        ec.st.assume(_forall([j], z3.Implies(z3.And(j >= i, j < n - 1), new_arr[j] == old_arr[j + 1]), [new_arr[j]]))
+        ec.st.assume(_forall([j], z3.Implies(z3.And(j >= 0, j < n), z3.If(j < i, new_arr[j] == old_arr[j], z3.Implies(j > i, new_arr[j - 1] == old_arr[j]))), [old_arr[j]]))
+        ec.st.ghost = dict(ec.st.ghost)
+        ec.st.ghost["_last_remove_index"] = i
+        self.list_set_all(ec, r, n - 1, new_arr)
+        return tV(V.none)
+
+    def me_pop(self, recv, e, ec):
+        """d.pop(k[, default]) on a dict; xs.pop() / xs.pop(i) on lists is not modelled"""
+        v = toV(recv)
+        if not self.must_g(ec, z3.And(is_ref(v), sub(typ(V.rv(v)), cid("dict")))):
+            return None
+        if ec.guard:
+            raise OutOfSubset("conditional mutation inside an expression")
+        k = toV(self.mat(self.ev(e.args[0], ec), ec))
+        h = ec.st.heap
+        r = V.rv(v)
+        has = h.dhas(r, k)
+        val = h.dget(r, k)
+        if len(e.args) > 1:
+            d = toV(self.ev(e.args[1], ec))
+            raise OutOfSubset("dict.pop with a default (line %d)" % e.lineno)
+        ec.may_raise(z3.Not(has), "KeyError", e.lineno, "dict.pop of a missing key")
+        self.dict_del(ec, r, k)
+        return tV(val)
 
     def me_keys(self, recv, e, ec):
         return T("fn", ("dictview", "keys", toV(recv)))
